@@ -1,11 +1,13 @@
 import Preflate.Driver.Wire
 import Preflate.Driver.CodecWire
+import Preflate.Driver.ContainerWire
 open Preflate Preflate.Driver
 
 def handle (line : String) : String :=
   match line.trimAscii.toString.splitOn " " with
   | ["parse", d] => parseLine (unhex d)
   | ["rewrite", d] => rewriteLine (unhex d)
+  | "scan" :: f :: _ :: entries => scanLine (unhex f) entries
   | "codec" :: ops => (match parseOps ops with | some o => codecLine o | none => "bad-request")
   | "events" :: ops => (match parseOps ops with | some o => eventsLine o | none => "bad-request")
   | _ => "bad-request"
